@@ -25,6 +25,18 @@ Name clashes: the printers' `fragments` map is collected in document order and i
 root's own, so an imported fragment SHADOWS a local one of the same name (`C12_from_files_clash`); the statements that
 compare with the reference therefore carry the side condition "fragment names of the resolved document are pairwise
 distinct", which is what the checker enforces (`DuplicateFragmentName`; `C12_from_files_checked` discharges it).
+
+Hypotheses that stay hypotheses: `RootOKp` (the project does not know the root's path or maps it to the root file),
+`ProjectOk` (every file is `Resolved`), `Resolved rootFile.defs`; in `C12_from_files(_frag)` also "fragment names of `R`
+pairwise distinct" and "every transitively spread name is defined" — `C12_from_files_checked` derives these two, for
+OPERATIONS of the root file, from `checkOp S R = []` of the checker MODEL (`Model/CheckOp.lean`) for a schema with
+`NoReservedFields` (no declared field `__typename`); the `_missing` theorems need `NoReservedFields` for the checker verdict;
+`C13_with_paths` needs `RootOK`, `C13_literal_of_relative_path` needs `AbsNoClimb` of both paths.
+
+OPEN — carried by K/O only: `materialise` and `findUndefined` (`Lemmas/DocJsonComposed.lean`) are hand transcriptions of
+the loop appending the imported definitions and of the loader's `find_undefined_fragment_spread`; their two ends are
+K-tied by C12 (printer) and C13 (resolver). That the real checker is `checkOp` is C03/C08's K. The text level is
+`Props/C12Text.lean`.
 -/
 namespace NitroVerif.C12
 open NitroVerif NitroVerif.Gql NitroVerif.DocJson NitroVerif.ReadDoc NitroVerif.FragClosure NitroVerif.Composed
